@@ -701,6 +701,13 @@ func (e *env) main(inClose, closeReturned *bool) {
 		comps = append(comps, s)
 		compIDs = append(compIDs, sc.ID)
 	}
+	if len(p.Scanners) != 0 {
+		for _, id := range p.Refuse {
+			if inst := p.InstByID(id); inst != nil {
+				ctx.Armed["scan:"+p.Scanners[0].ID+"@"+p.NameOf(inst)+"#*"] = true
+			}
+		}
+	}
 	// hand-wired points: the application has set them to the raw target before Run
 	{
 		w := model.NewWorld(p, EffectiveCfg(p))
